@@ -521,6 +521,8 @@ def run(ctx):
     rcm9 = prog.cls("flow.record.selector.RecordContextMatcher")
     binds9 = []
     for fn9 in [f for f in ast.walk(rcm9) if isinstance(f, ast.FunctionDef)]:
+        if fn9.name in ("matches", "__init__"):
+            continue  # the namespace set-up itself (helper functions by name) is not a generator binding
         for n9 in walk_no_nested(fn9):
             if isinstance(n9, ast.Assign) and any(isinstance(t, ast.Subscript) and norm(t.value) == "self.data" and not isinstance(t.slice, ast.Constant) for t in n9.targets):
                 binds9.append((fn9, n9))
